@@ -98,6 +98,20 @@ static inline Int gen_int(ByteSource& in, size_t maxlimbs, bool allow_neg = true
   return Int::from_limbs(v.data(), v.size(), neg);
 }
 
+// boundary values: 0, +-1, +-2, limb boundaries (B-1, B, B+1, B^2-1, B^2), signed/unsigned long boundaries
+static inline Int gen_special(ByteSource& in) {
+  unsigned k = (unsigned)in.range(0, 15); bool neg = in.flag(); Int v;
+  switch (k) {
+    case 0: v = Int(0); break; case 1: case 2: v = Int(1); break; case 3: v = Int(2); break; case 4: v = Int(3); break;
+    case 5: v = Int::from_u64(~0ull); break; case 6: v = ref::pow2(64); break; case 7: v = ref::pow2(64) + Int(1); break;
+    case 8: v = Int::from_u64(1ull << 63); break; case 9: v = Int::from_u64((1ull << 63) - 1); break;
+    case 10: v = ref::pow2(128) - Int(1); break; case 11: v = ref::pow2(128); break; case 12: v = ref::pow2(64 * (unsigned)in.range(1, 6)); break;
+    case 13: v = ref::pow2(64 * (unsigned)in.range(1, 6)) - Int(1); break; case 14: v = ref::pow2((unsigned)in.range(0, 200)); break;
+    default: v = Int::from_u64(in.range(0, 40)); break;
+  }
+  return neg ? -v : v;
+}
+
 // ---- description helpers ------------------------------------------------------
 static inline std::string show(const Int& a, size_t maxhex = 96) {
   static const bool full = getenv("VERIF_FULLHEX") != nullptr; if (full) maxhex = 1u << 30;
